@@ -283,6 +283,25 @@ example : (run St.init (sched "a".toList (.evThenPost (exMsg (some "a") 1) (.ok2
     ∧ (run St.init (sched "a".toList (.evThenPost (exMsg (some "a") 1) (.other none)) [] [] [])).out = [.failErr "a".toList] := by
   decide
 
+/-- Instances are independent: however the actions of several transports living in one process
+are interleaved, what transport `i` puts on its read stream (its whole state) is what it would do
+alone with its own actions — equal request ids on different transports do not meet. -/
+theorem c12_instances_independent (sts : List (St α)) (acts : List (Nat × Action α)) (i : Nat) :
+    (runTagged sts acts)[i]? = (sts[i]?).map (fun s => run s (projActs i acts)) :=
+  runTagged_get sts acts i
+
+example : ((runTagged [St.init, St.init]
+      [(0, .register "a".toList), (1, .register "a".toList), (1, .event (exMsg (some "a") 2)), (0, .post (.ok200 (some (exMsg (some "a") 1)))),
+       (1, .post .accepted)]).map (·.out))
+    = [[.routed (exMsg (some "a") 1)], [.routed (exMsg (some "a") 2)]] := by decide
+
+/-- The options of `SSEParameters` (session id, bearer token, headers, reconnect flags, endpoint
+names, keep-alive) are no input of a session: in particular a configured session id does not make
+an endpoint "known" — live-or-raise, delivery and the terminals are the same under any options. -/
+theorem c12_options_irrelevant (o₁ o₂ : Options) (dec : Str → Option (Msg α)) (url : Str) (T cap : Nat) (conn : Conn)
+    (chunks : List (Nat × Str)) (close : Option Nat) (reqs : List (Str × Mode α × List (Msg α))) :
+    sessionWith o₁ dec url T cap conn chunks close reqs = sessionWith o₂ dec url T cap conn chunks close reqs := rfl
+
 /-! ## event stream -/
 
 /-- Chunk independence: however the decoded event stream is cut into chunks (any number, any
